@@ -486,7 +486,20 @@ def _call(f, env, variant, params):
     return f(**dict((k, env[k]) for k in order if k in env))
 
 
-def run_batch(cases, glob_src="GL = 7\ny = 1000\ncl = 77", closure_value=5, normalise_location=False):
+DEFAULT_GLOB_SRC = "GL = 7\ny = 1000\ncl = 77"
+
+
+def full_source(cases, glob_src=DEFAULT_GLOB_SRC):
+    return module_source(cases, "from implexpr import tick\n" + glob_src)
+
+
+def classify_lines(lines):
+    """the library's own classification of source lines (its regular expressions are applied, not re-implemented)"""
+    import icontract._represent as _rp
+    return ["deco" if _rp._DECORATOR_RE.match(ln) else "defcls" if _rp._DEF_CLASS_RE.match(ln) else "other" for ln in lines]
+
+
+def run_batch(cases, glob_src=DEFAULT_GLOB_SRC, closure_value=5, normalise_location=False):
     """cases: [{"expr": str, "env": {...}, "layout": str, ...}] -> list of observations."""
     sc = Scratch()
     outs = []
@@ -498,11 +511,29 @@ def run_batch(cases, glob_src="GL = 7\ny = 1000\ncl = 77", closure_value=5, norm
                 for k, v in c["a_repr"].items():
                     setattr(r, k, v)
                 reprs[i] = r
-        src = module_source(cases, "from implexpr import tick\n" + glob_src)
+        src = full_source(cases, glob_src)
+        import icontract._represent as _rp
+        scans = []
+        orig_inspect = _rp.inspect_decorator
+
+        def recording_inspect(lines, lineno, filename):
+            rec = {"lineno": lineno, "kinds": classify_lines(lines), "nlines": len(lines)}
+            scans.append(rec)
+            try:
+                r = orig_inspect(lines=lines, lineno=lineno, filename=filename)
+            except (ValueError, SyntaxError) as e:
+                rec["result"] = type(e).__name__
+                raise
+            txt = r.atok.text
+            rec["result"] = txt[:txt.rindex("def dummy_")] if "def dummy_" in txt else txt
+            return r
+
+        _rp.inspect_decorator = recording_inspect
         try:
             mod, mod_name = sc.module(src)
             fs, plain = mod.make_all(closure_value, reprs)
         except BaseException as e:  # noqa: B902
+            _rp.inspect_decorator = orig_inspect
             return [{"define": ["raise", type(e).__name__, str(e)[:200]], "src": src} for _ in cases]
         glob = dict(vars(mod))
         src_lines = src.split("\n")
@@ -607,6 +638,12 @@ def run_batch(cases, glob_src="GL = 7\ny = 1000\ncl = 77", closure_value=5, norm
                                 "representable": _representable_value(v)})
                 ob["recomputed"] = rec
             outs.append(ob)
+        if len(cases) == 1 and outs:
+            outs[0]["scans"] = scans
         return outs
     finally:
+        try:
+            _rp.inspect_decorator = orig_inspect
+        except NameError:
+            pass
         sc.close()
